@@ -2,11 +2,16 @@
 
     Proved: the 32-bit flag word is, bit for bit, the header word with opcode and rcode masked out in
     its lower half and the EDNS extended flags in its upper half, for every word and every OPT value;
-    the DNSSEC indicator is AD for responses and DO for queries.  The remaining fields are read
-    directly from the bytes by definition of the model; their agreement with the implementation and
-    with independent decoding (question name forms, EDNS fields, cache behaviour) is decided by the
-    correspondence on every run. *)
-From DV Require Import Model.Base Model.Parser Model.Header Proofs.Hoare Proofs.HeaderBits Proofs.SummaryBits.
+    the DNSSEC indicator is AD for responses and DO for queries; and, for every accepted packet, the
+    four question getters - before and after the question cache is filled - return the labels that the
+    declarative name policy (Spec/NameSpec.v) reads at the question offset, as pointer-free wire
+    bytes, as wire bytes without the root byte and as lower-cased dotted text, with the two 16-bit
+    words that follow the name on the wire as type and class; that decoding is a function of the bytes.
+    The remaining fields (id, opcode, rcode, EDNS version / extended rcode / option count / payload
+    size) are single reads of the bytes by definition of the model; their agreement with the
+    implementation and with independent decoding is decided by the correspondence on every run. *)
+From DV Require Import Model.Base Model.Parser Model.Header Model.Readers Spec.NameSpec Proofs.Hoare Proofs.HeaderBits
+  Proofs.SummaryBits Proofs.ReadersLabels Proofs.QuestionSpec.
 Local Open Scope N_scope.
 
 Theorem C04_flags_word : forall w x i, w < 65536 ->
@@ -21,6 +26,32 @@ Theorem C04_dnssec_bits : forall w x, w < 65536 ->
   if N.testbit w 15 then N.testbit w 5 else N.testbit (match x with Some v => v | None => 0 end) 15.
 Proof. exact dnssec_bits. Qed.
 Print Assumptions C04_dnssec_bits.
+
+Theorem C04_question_getters : forall p v, bytes_ok p -> parse p = Ok v ->
+  exists ls t, question_of p ls t CLASS_IN /\
+    let wire := wire_of_labels ls in
+    let v' := pp_with_cached v (Some (wire, t, CLASS_IN)) in
+    pp_question_raw0 v = Ok (v', Some (wire, t, CLASS_IN)) /\
+    pp_question_raw v = Ok (v', Some (labels_flat ls, t, CLASS_IN)) /\
+    pp_question v = Ok (Some (ascii_lowercase (dotted ls), t, CLASS_IN)) /\
+    pp_qtype_qclass v = Ok (Some (t, CLASS_IN)) /\
+    pp_question_raw0 v' = Ok (v', Some (wire, t, CLASS_IN)) /\
+    pp_question_raw v' = Ok (v', Some (labels_flat ls, t, CLASS_IN)) /\
+    pp_question v' = Ok (Some (ascii_lowercase (dotted ls), t, CLASS_IN)) /\
+    pp_qtype_qclass v' = Ok (Some (t, CLASS_IN)).
+Proof. exact parsed_question_getters. Qed.
+Print Assumptions C04_question_getters.
+
+Theorem C04_question_decoding_unique : forall p ls t c ls' t' c',
+  question_of p ls t c -> question_of p ls' t' c' -> ls = ls' /\ t = t' /\ c = c'.
+Proof. exact question_of_fun. Qed.
+Print Assumptions C04_question_decoding_unique.
+
+(** Non-vacuity: a query for "Ab.c" AAAA whose name is accepted; the text getter lower-cases it. *)
+Example C04_sample_question :
+  exists v, parse [0;7; 1;0; 0;1; 0;0; 0;0; 0;0; 2;65;98; 1;99; 0; 0;28; 0;1] = Ok v /\
+            pp_question v = Ok (Some ([97;98;46;99], 28, 1)).
+Proof. vm_compute. eexists. split; reflexivity. Qed.
 
 Example C04_sample : w_flags 65535 (Some 32768) = 2147518448 /\ f_dnssec (w_flags 256 (Some 32768)) = true.
 Proof. vm_compute. split; reflexivity. Qed.
